@@ -312,6 +312,17 @@ func RunProp(t *testing.T, p *Prop) {
 		rapid.Check(t, func(rt *rapid.T) {
 			c := p.Gen(rt)
 			raw := mustJSON(c)
+			st.mu.Lock()
+			tooSlow := len(st.Slow) >= 3
+			st.mu.Unlock()
+			if tooSlow {
+				// Latency bounds were exceeded several times already: the candidates go to the
+				// driver for confirmation; generating more slow cases only burns the budget.
+				st.mu.Lock()
+				st.Labels["skipped:after-3-slow-cases"]++
+				st.mu.Unlock()
+				return
+			}
 			if curPath != "" {
 				os.WriteFile(curPath, raw, 0o644)
 			}
